@@ -478,6 +478,13 @@ func derivesFrom(v ssa.Value, pred func(ssa.Value) bool, throughCalls bool) bool
 								return true
 							}
 						}
+					case *ssa.Slice:
+						// copy(local[:], src)
+						for _, src := range copiedInto(y) {
+							if rec(src, d+1) {
+								return true
+							}
+						}
 					}
 				}
 			}
@@ -669,4 +676,21 @@ func unspill(v ssa.Value) ssa.Value {
 		return last
 	}
 	return v
+}
+
+// copiedInto lists the sources of builtin copy calls whose destination is the slice value sl.
+func copiedInto(sl *ssa.Slice) []ssa.Value {
+	var out []ssa.Value
+	refs := sl.Referrers()
+	if refs == nil {
+		return nil
+	}
+	for _, r := range *refs {
+		if cl, ok := r.(*ssa.Call); ok {
+			if b, ok := cl.Call.Value.(*ssa.Builtin); ok && b.Name() == "copy" && cl.Call.Args[0] == ssa.Value(sl) {
+				out = append(out, cl.Call.Args[1])
+			}
+		}
+	}
+	return out
 }
